@@ -25,7 +25,8 @@ ERR = ["Blah", "Red/Blue", "Property/Red", "(Duration/3 xyz, (Red))", "Age/abc",
        "Event/Sensory-event/Wrong", "Red, Red", "(Blue, Green), (Green, Blue)", "Definition/Xyz", "Inset",
        "Label/a$b", "Item-count/abc",
        "Property/Informational-property/Label/ab%c", "Informational-property/Label/#", "Event/Sensory-event/Bläh", "Property/Data-property/Data-value/Quantitative-value/Item-count/x$y",
-       "Attribute/Blech/Blorp"]
+       "Attribute/Blech/Blorp",
+       "Label/a\\b", "Item/Ext\\x", "Pathname/C:\\data"]        # a backslash (one raw character) inside a value / an extension
 STRUCT = [",, ", "(", ")", " Red (Blue) "]
 DEFS = "(Definition/Acc/#, (Acceleration/#, Red)), (Definition/Plain, (Square))"
 DEFUSE = ["Def/Acc/3 hz", "Def/Acc/3", "Def/Acc/3 m-per-s^2", "(Def-expand/Acc/3 hz, (Acceleration/3 hz, Red))", "Def/Plain/3", "Def/Acc",
@@ -155,15 +156,19 @@ def run_case(case):
     kind, rid, seed = case["kind"], case["id"], case["seed"]
     try:
         if kind == "string":
-            out = []
-            for w in (True, False):
-                h = HedString(case["text"], schema, _G["dd"])
-                if case.get("expand_first"):      # history: the object's definitions are expanded before it is validated
-                    h.expand_defs()
+            out = {}
+            h = None
+            # same_object: ONE HedString object is validated twice (errors only, then with warnings) - the second report is the
+            # one that is examined in full
+            for w in ((False, True) if case.get("same_object") else (True, False)):
+                if h is None or not case.get("same_object"):
+                    h = HedString(case["text"], schema, _G["dd"])
+                    if case.get("expand_first"):      # history: the object's definitions are expanded before it is validated
+                        h.expand_defs()
                 eh = ErrorHandler(check_for_warnings=w)
                 eh.push_error_context(ErrorContext.HED_STRING, h)
-                out.append(h.validate(allow_placeholders=case["ph"], error_handler=eh))
-            return _record(out[0], out[1], rid, seed)
+                out[w] = h.validate(allow_placeholders=case["ph"], error_handler=eh)
+            return _record(out[True], out[False], rid, seed)
         if kind == "string-default":
             h = HedString(case["text"], schema, _G["dd"])
             iw = h.validate(allow_placeholders=case["ph"])
@@ -199,6 +204,8 @@ def make_cases(ctx, n):
         if kind.startswith("string"):
             c["text"] = compose(rng)
             c["ph"] = bool(i % 2)
+            if kind == "string" and i % 5 == 1:
+                c["same_object"] = True
             if kind == "string" and i % 18 == 0:
                 c["expand_first"] = True
                 if "Def/" not in c["text"]:
